@@ -36,7 +36,9 @@ GROUP_BODIES = {
     "nxos": {"G1": ["10 host 10.0.0.1", "20 10.0.0.0/24"], "G2": ["10.1.0.0/16"]},
 }
 NOISE = ["template T1\n ip access-group A1 in\n description a template, not an interface", "hostname R1", "router bgp 65000\n neighbor 10.0.0.1 remote-as 65001\n address-family ipv4\n  network 10.0.0.0", "line vty 0 4\n transport input ssh",
-         "! a comment", "ip route 0.0.0.0 0.0.0.0 10.0.0.254"]
+         "! a comment", "ip route 0.0.0.0 0.0.0.0 10.0.0.254",
+         # global one-line commands that begin like an access-list header
+         "ip access-list log-update threshold 10", "ip access-list logging interval 10", "ip access-list logging hash-generation"]
 
 
 def make_cfg(platform, acl_names, group_names, intfs, indent, noise_seed):
@@ -60,16 +62,31 @@ def make_cfg(platform, acl_names, group_names, intfs, indent, noise_seed):
     for n in acl_names:
         typ, body = ACL_BODIES[platform][n]
         head = f"ip access-list {typ} {n}" if platform == "ios" else f"ip access-list {n}"
-        secs.append("\n".join([head] + body_lines(body)))
+        if noise_seed % 5 == 1 and len(body) >= 2:
+            # the same list defined in two fragments one after the other (pasted configurations): one access list with all entries in order
+            bl = body_lines(body)
+            cut = len(bl) // 2
+            secs.append("\n".join([head] + bl[:cut] + [head] + bl[cut:]))
+        else:
+            secs.append("\n".join([head] + body_lines(body)))
     for g in group_names:
         head = f"object-group network {g}" if platform == "ios" else f"object-group ip address {g}"
         secs.append("\n".join([head] + body_lines(GROUP_BODIES[platform][g])))
     for name, binds in intfs:
         # the description may quote a command: only real `ip access-group` lines of the interface bind an ACL
         descr = "description uplink" if noise_seed % 3 else f"description was: ip access-group {acl_names[-1]} out (replaced)"
-        secs.append("\n".join([f"interface {name}"] + [pad + descr] + [pad + f"ip access-group {a} {d}" for a, d in binds]))
+        blines = [pad + f"ip access-group {a} {d}" for a, d in binds]
+        if noise_seed % 5 in (1, 3) and blines:
+            # the interface entered twice: bindings of the first block stay valid when a second block (another binding, or only a description) follows
+            secs.append("\n".join([f"interface {name}"] + blines[:1] + [f"interface {name}"] + [pad + descr] + blines[1:]))
+        else:
+            secs.append("\n".join([f"interface {name}"] + [pad + descr] + blines))
     for k in range(noise_seed % 3):
         secs.append(NOISE[(noise_seed + k) % len(NOISE)])
+    if noise_seed % 4 == 1:
+        secs.append(NOISE[6 + noise_seed % 3])
+        if platform == "ios":
+            secs.append("ip access-list persistent")          # IOS-XE global command (an IOS list header always carries its type)
     rnd.shuffle(secs)
     if noise_seed % 2:
         secs.insert(1, "!")
